@@ -105,6 +105,12 @@ def run(F, R):
     n2_direction(F, R, M, byrole)
     n3_protocol(F, R, M, roles, byrole)
     n5_suppression_siblings(F, R, M, roles)
+    # N6: each queue runs in the suppression mode that was negotiated: the event-index argument of every queue
+    # construction is contains(negotiated features, EVENT_IDX) - with the wrong mode should_notify reads a field the
+    # device never writes (shared with C08.H3)
+    from . import C08 as _c8
+    _qctor = [b['id'] for b in queue_entry_points(F, M) if b.get('sig', '').find('-> core::result::Result<%s<' % M.queue_adt) >= 0]
+    _c8.h1_constructors(F, RuleProxy(R, {'H3': 'N6'}, only=lambda inst: inst.endswith('arg-29')), M, _qctor)
 
 
 def n5_suppression_siblings(F, R, M, roles):
